@@ -8,6 +8,7 @@ package model
 // blanks and mixed case.
 
 import (
+	"encoding/json"
 	"fmt"
 	"reflect"
 	"regexp"
@@ -117,5 +118,68 @@ func TestBoundedStringBuiltins(t *testing.T) {
 	if _, err := StrIn("ab", rv(1)); err == nil {
 		t.Fatalf("CONFIRMED: \"ab\".In(1) is answered instead of refused")
 	}
-	fmt.Printf("BOUNDED-CASES: %d calls compared with the documented result, 38 malformed argument lists refused\n", cases)
+	// dispatch: the documented NAME of every built-in reaches the function of that name on both node kinds (seed C05f: a lookup
+	// table whose "LastIndex" row held StrIndex). Every name is called through CallFunction on a Go string node and on a JSON
+	// string node, on receivers where the functions differ pairwise (repeated matches, mixed case, blanks).
+	type disp struct {
+		name string
+		args []interface{}
+		want func(s string) interface{}
+	}
+	table := []disp{
+		{"Len", nil, func(s string) interface{} { return len(s) }},
+		{"ToLower", nil, func(s string) interface{} { return strings.ToLower(s) }},
+		{"ToUpper", nil, func(s string) interface{} { return strings.ToUpper(s) }},
+		{"Trim", nil, func(s string) interface{} { return strings.TrimSpace(s) }},
+		{"Repeat", []interface{}{int64(2)}, func(s string) interface{} { return strings.Repeat(s, 2) }},
+		{"Compare", []interface{}{"ab"}, func(s string) interface{} { return strings.Compare(s, "ab") }},
+		{"Contains", []interface{}{"ab"}, func(s string) interface{} { return strings.Contains(s, "ab") }},
+		{"Count", []interface{}{"ab"}, func(s string) interface{} { return strings.Count(s, "ab") }},
+		{"HasPrefix", []interface{}{"ab"}, func(s string) interface{} { return strings.HasPrefix(s, "ab") }},
+		{"HasSuffix", []interface{}{"ab"}, func(s string) interface{} { return strings.HasSuffix(s, "ab") }},
+		{"Index", []interface{}{"ab"}, func(s string) interface{} { return strings.Index(s, "ab") }},
+		{"LastIndex", []interface{}{"ab"}, func(s string) interface{} { return strings.LastIndex(s, "ab") }},
+		{"Split", []interface{}{"b"}, func(s string) interface{} { return strings.Split(s, "b") }},
+		{"In", []interface{}{"abab", "zz"}, func(s string) interface{} { return s == "abab" || s == "zz" }},
+		{"MatchString", []interface{}{"^a+b?$"}, func(s string) interface{} { m, _ := regexp.MatchString("^a+b?$", s); return m }},
+		{"Replace", []interface{}{"ab", "x"}, func(s string) interface{} { return strings.ReplaceAll(s, "ab", "x") }},
+	}
+	dispatched := 0
+	for _, s := range []string{"abab", " aB ", "xabyabz", "ab", "", "aab", "ba"} {
+		quoted, _ := json.Marshal(s)
+		jn, jerr := NewJSONValueNode(string(quoted), "J")
+		if jerr != nil {
+			t.Fatalf("CONFIRMED: JSON string %s is not accepted as a fact: %v", quoted, jerr)
+		}
+		nodes := map[string]ValueNode{"Go": NewGoValueNode(reflect.ValueOf(s), "S"), "JSON": jn}
+		for kind, n := range nodes {
+			for _, d := range table {
+				got, err := n.CallFunction(d.name, rv(d.args...)...)
+				want := d.want(s)
+				dispatched++
+				if err != nil {
+					t.Fatalf("CONFIRMED: %q.%s(%v) through CallFunction of a %s node is refused (%v); documented result %#v", s, d.name, d.args, kind, err, want)
+				}
+				if !got.IsValid() || !reflect.DeepEqual(got.Interface(), want) {
+					var g interface{} = "<invalid>"
+					if got.IsValid() {
+						g = got.Interface()
+					}
+					t.Fatalf("CONFIRMED: %q.%s(%v) through CallFunction of a %s node = %#v, documented result %#v", s, d.name, d.args, kind, g, want)
+				}
+			}
+			if _, err := n.CallFunction("NoSuchFunction"); err == nil {
+				t.Fatalf("CONFIRMED: %q.NoSuchFunction() through CallFunction of a %s node is answered instead of refused", s, kind)
+			}
+		}
+	}
+	// Len of arrays and maps through the same dispatcher
+	for kind, n := range map[string]ValueNode{"Go slice": NewGoValueNode(reflect.ValueOf([]int{1, 2, 3}), "A"), "Go map": NewGoValueNode(reflect.ValueOf(map[string]int{"a": 1, "b": 2, "c": 3}), "M")} {
+		got, err := n.CallFunction("Len")
+		dispatched++
+		if err != nil || !got.IsValid() || got.Int() != 3 {
+			t.Fatalf("CONFIRMED: Len() through CallFunction of a %s node of three elements: %v, %v", kind, got, err)
+		}
+	}
+	fmt.Printf("BOUNDED-CASES: %d calls compared with the documented result, 38 malformed argument lists refused, %d calls dispatched by name through CallFunction\n", cases, dispatched)
 }
